@@ -331,7 +331,10 @@ RANGE = Rec('Range', {'start': INT, 'stop': Opt(INT)})
 SEARCHRESULTS = Rec('SearchResults', {'items': ListOf(STR), 'total': INT})
 W.rec_classes['dawgie.db.basis.Range'] = RANGE
 W.rec_classes['dawgie.db.basis.SearchResults'] = SEARCHRESULTS
-name_part = z3.Function('dissect_name', STR.sort(), STR.sort())       # dissect(key)[1]
+def name_part(k):
+    """dissect(key)[1]"""
+    return z3.Function('dissect_name', STR.sort(), STR.sort())(k)
+
 
 
 def _dissect(ex, args, kwargs, e):
